@@ -22,6 +22,15 @@ CHECKS = {
     note="Trusted: CrossHair's str model (strip, format padding), z3, the reference indenter in props/c18.py; glyphs are non-blank markers. "
          'A hunt harness with symbolic width/glyph is bug-hunting only.',
     technique='symbolic execution of the real Python functions (CrossHair + z3), one condition per indenter configuration'),
+ 'C19': dict(
+    cat='model_checking', ref='DESIGN.md §3 C19',
+    text='Bounded symbolic execution of the real Comment rendering (every unicode string up to the bound, 6 nesting shapes, '
+         'extend-after-render) against the reference: every physical line - split at every line boundary Python knows - starts '
+         'with // and carries the original text, object unchanged. Build level: the real Builder.build with symbolic copyright or '
+         'creator_info (short) and with a pool of hostile texts: all files keep identical non-comment lines.',
+    note="Trusted: CrossHair's str model, z3; comment line = first non-blank chars are //; build-level harness uses 2 fixed models; "
+         'concrete sub-computations of a build run untraced (vf/fast.py) - same real code, no stubs.',
+    technique='symbolic execution of the real Python functions (CrossHair + z3) incl. full Builder.build with symbolic comment inputs'),
 }
 
 NOT_APPLICABLE = {
